@@ -213,6 +213,20 @@ theorem stepAmount_list_prefix (r : Reaction) (heq : r.equal = false) (n : Nat) 
       Bool.not_true, Bool.false_eq_true, if_true, Nat.add_sub_cancel, hget, htake]
     grind
 
+/-- cumulative amounts that give the same states as the increments `l` -/
+def prefixSums (l : List Rat) : List Rat := (List.range l.length).map fun i => (l.take (i + 1)).sum
+
+theorem stepAmount_list_cumulative (r : Reaction) (heq : r.equal = false) (n : Nat) (h1 : 1 ≤ n) (hn : n ≤ r.steps.length) :
+    sumSteps true r n = stepAmount false { r with steps := prefixSums r.steps } n := by
+  rw [stepAmount_list_prefix r heq n hn]
+  have hlen : (prefixSums r.steps).length = r.steps.length := by simp [prefixSums]
+  have hk : ¬ (n > r.steps.length) := by omega
+  have hl : r.steps.length ≠ 0 := by omega
+  have hget : (prefixSums r.steps).getD (n - 1) 0 = (r.steps.take n).sum := by
+    have : n - 1 < r.steps.length := by omega
+    simp [prefixSums, List.getD, this, Nat.sub_add_cancel h1]
+  simp only [stepAmount, heq, hlen, hl, hk, if_false, Bool.not_false, Bool.not_true, Bool.false_eq_true, if_true, hget]
+
 /-! ## what `step()` hands to the solver -/
 
 /-- totals handed to the solver + what stays in pure phases and solid solutions = inventory(solution or mix) +
